@@ -11,6 +11,9 @@ structure DState where
   vh : VHist := {}
   fh : FHist := {}
   wh : WHist := {}
+  whB : WHist := {}
+  twinA : Option Perp.Spec.Step := none
+  twinDiverged : Bool := false
 
 def handle (s : DState) (line0 : String) : DState :=
   let line := line0.trimAscii.toString
@@ -19,10 +22,30 @@ def handle (s : DState) (line0 : String) : DState :=
   match kind with
   | "I" => { s with acc := handleInteger acc kv line }
   | "VCFG" => let (a, h) := handleVCfg acc s.vh kv line; { s with acc := a, vh := h }
-  | "CFG" => let (a, h) := handleWCfg acc kv line; { s with acc := a, wh := h }
-  | "TX" => let (a, h) := handleWTx acc s.wh kv line; { s with acc := a, wh := h }
-  | "OBS" => let (a, h) := handleWObs acc s.wh kv line; { s with acc := a, wh := h }
-  | "QRY" => { s with acc := handleWQry acc s.wh kv line }
+  | "CFG" =>
+    let (a, h) := handleWCfg acc kv line
+    if kv.str "w" == "B" then { s with acc := a, whB := h } else { s with acc := a, wh := h, twinA := none, twinDiverged := false }
+  | "TX" =>
+    if kv.str "w" == "B" then let (a, h) := handleWTx acc s.whB kv line; { s with acc := a, whB := h }
+    else let (a, h) := handleWTx acc s.wh kv line; { s with acc := a, wh := h }
+  | "OBS" =>
+    if kv.str "w" == "B" then
+      let txline := match s.whB.pending with | some p => p.2 | none => line
+      let kindB := match s.whB.pending with | some p => p.1.str "msg" | none => ""
+      let errB := match s.whB.pending with | some p => (p.1.str "err").take 36 |>.toString | none => ""
+      let (a, h, st) := handleWObs acc s.whB kv line
+      match s.twinA, st with
+      | some sa, some sb =>
+        if s.twinDiverged then { s with acc := a, whB := h, twinA := none }
+        else
+          let tags := twinCheck sa sb
+          let a := tags.foldl (fun a t => a.report "SPECFAIL" "C13" s!"{kindB}:{t}[native:{errB}]" txline) a
+          { s with acc := a, whB := h, twinA := none, twinDiverged := !tags.isEmpty }
+      | _, _ => { s with acc := a, whB := h }
+    else
+      let (a, h, st) := handleWObs acc s.wh kv line
+      { s with acc := a, wh := h, twinA := if kv.str "w" == "A" then st else none }
+  | "QRY" => { s with acc := handleWQry acc (if kv.str "w" == "B" then s.whB else s.wh) kv line }
   | "PCFG" => let (a, h) := handlePCfg acc kv; { s with acc := a, fh := h }
   | "POP" => let (a, h) := handlePOp acc s.fh kv line; { s with acc := a, fh := h }
   | "VOP" => let (a, h) := handleVOp acc s.vh kv line; { s with acc := a, vh := h }
